@@ -11,7 +11,7 @@ TRAITS = [0, 1, 2, 3, 100001, 100002, 100003]
 
 DEFAULT_PROFILE = {
     'names': 5, 'rp_create': 9, 'rp_update': 6, 'rp_delete': 4, 'inv_set': 14, 'inv_post': 4, 'inv_put': 5,
-    'inv_delete': 3, 'inv_delete_all': 2, 'traits_set': 5, 'traits_delete': 2, 'aggs_set': 5,
+    'inv_delete': 3, 'inv_delete_all': 2, 'traits_set': 5, 'traits_delete': 2, 'aggs_set': 7,
     'alloc_put': 18, 'alloc_post': 8, 'alloc_delete': 4, 'reshape': 8,
 }
 PROFILES = {
@@ -22,6 +22,7 @@ PROFILES = {
     'integrity': dict(DEFAULT_PROFILE, rp_delete=10, inv_delete=8, inv_delete_all=5, names=12, traits_set=8,
                       alloc_delete=8, alloc_post=16, reshape=10),
     'consumers': dict(DEFAULT_PROFILE, alloc_put=30, alloc_post=18, alloc_delete=10, reshape=10, names=1),
+    'names': dict(dict((k, 1) for k in DEFAULT_PROFILE), names=40, inv_set=6, rp_create=6, traits_set=8, inv_delete_all=3),
 }
 
 
@@ -297,6 +298,8 @@ def gen_op(rng, dump, profile='default'):
         parent = None
         if v >= 14 and rps and rng.random() < 0.55:
             parent = some_rp(0.95)
+            if rng.random() < 0.06:
+                parent = 1000 + parent * 10 + rng.randrange(4)      # another spelling of that uuid (ops.spell)
         return ('rp_create', v, rng.randint(1, N_RP), rng.randint(1, N_NAME), parent)
     if kind == 'rp_update':
         v = pick_v(rng)
@@ -305,6 +308,8 @@ def gen_op(rng, dump, profile='default'):
         parent = 'absent'
         if v >= 14 and rng.random() < 0.75:
             parent = None if rng.random() < 0.25 else some_rp(0.95)
+            if parent is not None and rng.random() < 0.08:
+                parent = 1000 + parent * 10 + rng.randrange(4)      # another spelling of that uuid (ops.spell)
         return ('rp_update', v, u, name, parent)
     if kind == 'rp_delete':
         return ('rp_delete', some_rp())
@@ -341,6 +346,17 @@ def gen_op(rng, dump, profile='default'):
     if kind == 'aggs_set':
         u = some_rp()
         l = sorted(set(rng.randint(1, N_AGG) for _ in range(rng.randint(0, 3))))
+        # targeted: aggregates SHARED between providers - join another provider's aggregates, or leave one that
+        # others are still in (associations and aggregate records of the others must not be touched)
+        mine = sorted(a for (w, a) in dump[10] if w == u)
+        others = sorted(set(a for (w, a) in dump[10] if w != u))
+        k = rng.random()
+        if others and k < 0.35:
+            l = sorted(set(l) | set(rng.sample(others, rng.randint(1, min(2, len(others))))))
+        elif k < 0.6 and set(mine) & set(others):
+            shared = sorted(set(mine) & set(others))
+            drop = rng.choice(shared)
+            l = [a for a in mine if a != drop]
         return ('aggs_set', pick_v(rng), u, gen_for(u), l)
     if kind == 'alloc_put':
         v = pick_v(rng)
